@@ -461,3 +461,38 @@ Example C17_ex_fragmented :
   run_wire_s session {| wr_bus := sign3; wr_inbox := [] |} (repeat one 40)
   = run_wire session {| wr_bus := sign3; wr_inbox := [] |}.
 Proof. vm_compute. reflexivity. Qed.
+
+(* ---------------------------------------------------------------------------------------- *)
+(* The bridge in front of ANY bus (not only virtual signs, which never answer data, counts, pixels-complete or
+   goodbye): [odk_step_replied p reply] is Odk::process_message with the bus abstracted to the answer [reply m] it
+   gives to the forwarded message. *)
+
+Theorem C17_bridge_is_odk_process : forall p b m b' r f rd,
+  frame_read (pt_in p) = Some (Ok f, rd) -> msg_of_frame f = m -> bus_step b m = Some (b', r) ->
+  odk_process p b
+  = match odk_step_replied p (fun _ => r) with
+    | Some (res, p', fwd) => Some (res, p', b', fwd)
+    | None => None
+    end.
+Proof. exact odk_process_replied. Qed.
+Print Assumptions C17_bridge_is_odk_process.
+
+Theorem C17_bridge_any_bus : forall p reply f rd,
+  frame_read (pt_in p) = Some (Ok f, rd) ->
+  (forall ev, In ev (w_sched (pt_out p)) -> ev <> WFail /\ ev <> WZero) ->
+  exists p',
+    odk_step_replied p reply = Some (Ok tt, p', Some (msg_of_frame f))
+    /\ pt_in p' = rd
+    /\ w_out (pt_out p')
+       = w_out (pt_out p) ++ match reply (msg_of_frame f) with
+                             | Some rm => encode_nl (frame_of_msg rm)
+                             | None => []
+                             end.
+Proof. exact bridge_any_bus. Qed.
+Print Assumptions C17_bridge_any_bus.
+
+Theorem C17_bridge_bad_line_any_bus : forall p reply e rd,
+  frame_read (pt_in p) = Some (Err e, rd) ->
+  odk_step_replied p reply = Some (Err (OComm e), {| pt_in := rd; pt_out := pt_out p |}, None).
+Proof. exact bridge_bad_line_any_bus. Qed.
+Print Assumptions C17_bridge_bad_line_any_bus.
